@@ -110,7 +110,13 @@ PROPS['C04']['worlds'] = [MEM_WORLD, INV_WORLD]
 PROPS['C04']['rule'] = MEM_RULE + ('; in the invoke world (see C11) function pointers cross in both directions - address of a sandbox function, null tainted function '
                                    'pointer, nullptr literal in; arbitrary table index or 0 out - against a backend that answers garbage when asked to translate null')
 PROPS['C04']['expect_probes'] = PROPS['C04']['expect_probes'] + ['null_function_pointer_passed_to_sandbox', 'null_function_pointer_returned_by_sandbox',
-                                                                 'pointers_of_two_sandboxes_compared', 'equal_representations_in_two_sandboxes_compared']
+                                                                 'pointers_of_two_sandboxes_compared', 'equal_representations_in_two_sandboxes_compared', 'struct_with_inner_struct_accessed']
+PROPS['C12']['worlds'] = PROPS['C12']['worlds'] + [INV_WORLD]
+PROPS['C12']['rule'] = PROPS['C12']['rule'] + ('; in the invoke world (see C11) one callback takes char, bool, long long, float, enum, unsigned short, a function pointer and a long '
+                                               'and returns unsigned long: the guest forwards what it was given, substitutes a function index (or 0) and a long of its own, '
+                                               'and the result is either delivered converted or, when it does not fit the guest type, the call aborts before the guest sees anything')
+PROPS['C12']['expect_probes'] = PROPS['C12']['expect_probes'] + ['callback_with_every_scalar_kind']
+PROPS['C11']['expect_probes'] = PROPS['C11']['expect_probes'] + ['arguments_passed_straight_from_sandbox_memory']
 PROPS['C03']['expect_probes'] = PROPS['C03']['expect_probes'] + ['static_array_indexed_with_narrow_integer_type']
 PROPS['C11']['expect_probes'] = PROPS['C11']['expect_probes'] + ['name_buffer_reused_after_lookup']
 
